@@ -124,6 +124,12 @@ impl Indexable for ast::Include {
             return None;
         };
 
+        if !ctx.mark_indexed(include_file_id) {
+            // included before (a diamond, a repeated include or a cycle): its declarations
+            // are in the index already
+            return None;
+        }
+
         let parse = ctx.db.parse(include_file_id);
         let source_file = ast::SourceFile::cast(parse.syntax_node())?;
 
